@@ -17,7 +17,7 @@ func init() {
 	register("C18", checkC18)
 	describe("C18", Meta{
 		Technique: "skeleton extraction from the HDL string builders (literal text with holes) plus three structural rules: declare-once groups (OnlyOne guard lists agree across the group and no member declares the shared identifier unguarded), identifier/driver consistency of self-contained module generators, and index-space discipline (processor vs domain vs shared-object index) across the three module levels",
-		Claim:     "Decides structural clauses of C18 on the generators (no Verilog tool exists in the sandbox): (G) for every helper register declared under an arch.OnlyOne guard, every opcode of the guard list carries the same guarded declaration with the same list, the declaring opcode is in its own list, and no other opcode declares the same identifier unconditionally — so the identifier is declared exactly once for every opcode subset that contains a user; (M) in every generator that emits a whole module (module … endmodule in one function), every literal identifier used as a clock in an event control, or as the target of a procedural or continuous assignment, is declared in that module, and no register is assigned in two always blocks that can be emitted together; (K) the module, instance and wrapper generators index processors, domains and shared objects in their own index spaces (a processor index used as a domain index yields mismatched port lists). (PORTS) for every shared-object kind and opcode-presence condition, the port names in the module header equal the names the architecture and processor modules declare, the number of ports equals the number of wires the top level connects by position, and those wires are declared. (ROLES) the module of a FIFO-like shared object gets, per attached processor, as many sender/receiver port groups as the top level connects — decided by interpreting the list-building code for every subset of the opcodes GetPerProcPortsHeader tests. The two other declare-once idioms are decided too: an opcode that leaves declarations to another opcode (deference loop over arch.Op) relies on that opcode declaring each identifier in the same method, and all users of one Runinfo.Check flag guard the same declarations. Necessary conditions only: syntax of arbitrary configurations, widths, and identifiers spelled through holes that the patterns cannot relate are not decided.",
+		Claim:     "Decides structural clauses of C18 on the generators (no Verilog tool exists in the sandbox): (G) for every helper register declared under an arch.OnlyOne guard, every opcode of the guard list carries the same guarded declaration with the same list, the declaring opcode is in its own list, and no other opcode declares the same identifier unconditionally — so the identifier is declared exactly once for every opcode subset that contains a user; (M) in every generator that emits a whole module (module … endmodule in one function), every literal identifier used as a clock in an event control, or as the target of a procedural or continuous assignment, is declared in that module, and no register is assigned in two always blocks that can be emitted together; (K) the module, instance and wrapper generators index processors, domains and shared objects in their own index spaces (a processor index used as a domain index yields mismatched port lists). (PORTS) for every shared-object kind and opcode-presence condition, the port names in the module header equal the names the architecture and processor modules declare, the number of ports equals the number of wires the top level connects by position, and those wires are declared. (ROLES) the module of a FIFO-like shared object gets, per attached processor, as many sender/receiver port groups as the top level connects — decided by interpreting the list-building code for every subset of the opcodes GetPerProcPortsHeader tests. The two other declare-once idioms are decided too: an opcode that leaves declarations to another opcode (deference loop over arch.Op) relies on that opcode declaring each identifier in the same method, and all users of one Runinfo.Check flag guard the same declarations. (DECLCOND) every identifier Conproc.Write_verilog declares under a condition (execution mode, threading, a constant local set per mode) is spelled by the opcode templates and the shared helpers (NextInstruction, ThreadInstructionStart, ExecutionCase …) only under conditions that imply the declaring one — decided by enumerating modes and condition valuations over a fragment tree of the generators. (LISTCLOSE) a localparam list opened by a generator is closed before the next module item on every path, loops counted 0, 1, 2 and 3+ times with first/last-iteration tests evaluated. (FRESHFLAGS) a loop that writes one processor module per iteration gives each a RuntimeInfo (declare-once flag registry) allocated in that iteration. Necessary conditions only: syntax of arbitrary configurations, widths, and identifiers spelled through holes that the patterns cannot relate are not decided.",
 		Note:      "Holes (non-literal parts of a concatenation) match any identifier fragment; a verdict 'undeclared' is only issued for fully literal identifiers in modules whose declarations contain no bare hole.",
 		DesignRef: "DESIGN.md §2 C18",
 	})
